@@ -140,6 +140,7 @@ pub fn run(out: &Path, seed: u64, thorough: bool, prop: &str) -> Result<(), Box<
         let mut problem: Option<String> = None;
         // reference for the pool clock (no model): the block in which (account, nonce) was last parked
         let mut last_parked: BTreeMap<(Address, u64), u64> = BTreeMap::new();
+        let mut prev_pool: Vec<(Address, u64, u64)> = Vec::new();
         for op in &h {
             if op.is_read() || matches!(op, Op::Reopen) { continue; }
             // the sender whose nonce the call may consume
@@ -226,6 +227,27 @@ pub fn run(out: &Path, seed: u64, thorough: bool, prop: &str) -> Result<(), Box<
                 Op::Clear | Op::Reorg(_) => { last_parked.clear(); for (a, n, b) in &pool { last_parked.insert((*a, *n), *b); } }
                 _ => {}
             }
+            // independent reference for nonce order (no model): the receipts one brc20_transact returns
+            // are those of the incoming transaction and of the waiting ones drained behind it, so their
+            // transactions carry CONSECUTIVE nonces (an expired or missing entry ends the drain)
+            if let (Op::Transact { .. }, Value::Array(rs)) = (&resolved, &outp.result) {
+                if rs.len() > 1 && problem.is_none() {
+                    let mut ns: Vec<u64> = vec![];
+                    for r in rs {
+                        if let Some(hh) = r.get("transactionHash").and_then(|x| x.as_str()) {
+                            if let Ok(t) = run.inst.rpc("eth_getTransactionByHash", json!([hh])) {
+                                if let Some(n) = t.get("nonce").and_then(|x| x.as_str()).and_then(|x| u64::from_str_radix(x.trim_start_matches("0x"), 16).ok()) { ns.push(n); }
+                            }
+                        }
+                    }
+                    if ns.len() == rs.len() && ns.windows(2).any(|w| w[1] != w[0] + 1) {
+                        failures.push(json!({"what": format!("{}: one brc20_transact executed transactions with nonces {:?}: not consecutive (a waiting transaction ran although its predecessor did not)", prop, ns),
+                            "case": {"history": run.history()}}));
+                        problem = Some(String::new());
+                    }
+                }
+            }
+            prev_pool = pool.clone();
             for (a, n, b) in &pool {
                 if let Some(want) = last_parked.get(&(*a, *n)) {
                     if want != b && problem.is_none() {
